@@ -632,6 +632,59 @@ static void EnsureWirePeer()
    if (l.compare(0, 5, "READY") != 0) HarnessAbort("python peer did not say READY but: " + l + " stderr: " + wirePeer.ErrText());
 }
 
+// ------------------------------------------------------------------------------------------------ parse targets
+// A parser must give the bytes' content whatever the target object held before: a PRNG-chosen share of all parses goes into a
+// USED object (a receive loop that keeps one Message; a Message filled with Add*() and then overwritten).  The earlier content
+// is derived from the case's own PRNG (never from an earlier case): the same script, an unrelated one, a superset (the incoming
+// Message is a subset), the same names with other types, a subset; filled through the Add API or by an earlier Unflatten.
+static const char * PREV_KIND[5] = {"same", "unrelated", "superset", "same_names_other_types", "subset"};
+static Scr MakePrev(const Scr & s, int & kind)
+{
+   Prof pp; pp.pySafe = true; pp.nonAsciiNames = R(6) == 0; pp.big = false; pp.maxDepth = 1;
+   kind = (int)R(5); Scr p;
+   switch (kind) {
+      case 0: p = s; break;
+      case 1: p = Gen(0, pp); break;
+      case 2: { p = s; const uint32 extra = 1 + R(3); for (uint32 e = 0; e < extra; e++) { Fld x; x.name = vh::fmt("xtra_%u", e); x.type = R(2) ? B_INT32_TYPE : B_STRING_TYPE; const uint32 c = 1 + R(3); for (uint32 k = 0; k < c; k++) { if (x.type == B_INT32_TYPE) x.iv.push_back(GenInt(32)); else x.sv.push_back(GenStr(pp)); } p.f.insert(p.f.begin() + R((uint32)p.f.size() + 1), x); } } break;
+      case 3: for (size_t i = 0; i < s.f.size(); i++) { Fld x; x.name = s.f[i].name; x.type = (s.f[i].type == B_INT32_TYPE) ? B_STRING_TYPE : B_INT32_TYPE; const uint32 c = 1 + R(4); for (uint32 k = 0; k < c; k++) { if (x.type == B_INT32_TYPE) x.iv.push_back(GenInt(32)); else x.sv.push_back(GenStr(pp)); } p.f.push_back(x); } break;
+      default: for (size_t i = 0; i < s.f.size(); i++) if (R(2)) p.f.push_back(s.f[i]); break;
+   }
+   p.what = R(2) ? s.what : ~s.what;
+   if (p.f.empty()) { Fld x; x.name = R(2) ? "old" : ""; x.type = B_INT32_TYPE; x.iv.push_back(1); x.iv.push_back(2); x.iv.push_back(3); p.f.push_back(x); }   // a used target holds something
+   return p;
+}
+static bool tgtUsed; static std::string tgtDesc;
+static void NoteTarget(const Scr & s, int kind, bool byParse, const char * impl, bool countStats)
+{
+   tgtUsed = true; tgtDesc = vh::fmt(" | target object (%s) already held a '%s' Message filled by %s", impl, PREV_KIND[kind], byParse ? "an earlier parse" : "the add API");
+   if (!countStats) return;
+   vh::stat("parse_into_used_target"); vh::stat(std::string("parse_into_used_target_prev_") + PREV_KIND[kind]); vh::stat(byParse ? "parse_into_target_filled_by_earlier_parse" : "parse_into_target_filled_by_add_api");
+   if (s.f.empty()) vh::stat("parse_fieldless_into_used_target");
+}
+static MessageRef CppTarget(const Scr & s, bool countStats)
+{
+   tgtUsed = false; tgtDesc.clear();
+   const uint32 how = R(4);
+   if (how == 0) { if (countStats) vh::stat("parse_into_fresh_target"); return MessageRef(new Message); }
+   if (how == 1) { if (countStats) vh::stat("parse_into_pooled_target"); return GetMessageFromPool(); }
+   int kind; const Scr p = MakePrev(s, kind); const bool byParse = R(2) != 0;
+   const int keep = forceRoute; MessageRef t = BuildCpp(p); forceRoute = keep;
+   if (byParse) { const std::string pb = FlatCpp(*t()); t = MessageRef(new Message); if (t()->UnflattenFromBytes((const uint8 *)pb.data(), (uint32)pb.size()).IsError()) { tgtUsed = true; tgtDesc = " | (filling the target by a first parse already failed)"; return t; } }
+   NoteTarget(s, kind, byParse, "C++ Message", countStats);
+   return t;
+}
+static MMessage * MiniTarget(const Scr & s, bool countStats)
+{
+   tgtUsed = false; tgtDesc.clear();
+   if (R(2) == 0) { MMessage * m = MMAllocMessage(R(2) ? 0 : 12345); MCK(m, "MMAllocMessage"); return m; }
+   int kind; const Scr p = MakePrev(s, kind); const bool byParse = R(2) != 0;
+   MMessage * t = BuildMM(p);
+   if (byParse) { const std::string pb = FlatMM(t); MMFreeMessage(t); t = MMAllocMessage(0); MCK(t, "MMAllocMessage"); if (MMUnflattenMessage(t, pb.data(), (uint32)pb.size()) != CB_NO_ERROR) HarnessAbort("MiniMessage cannot read its own bytes while preparing a used target"); }
+   NoteTarget(s, kind, byParse, "MMessage", false); if (countStats) { vh::stat("mini_parse_into_used_target"); if (s.f.empty()) vh::stat("mini_parse_fieldless_into_used_target"); }
+   return t;
+}
+static std::string UK(const char * key) { return tgtUsed ? std::string(key) + "|used-target" : std::string(key); }
+
 // ------------------------------------------------------------------------------------------------ one wire case
 static std::vector<uint8> umBuf, umBuf2;
 static void RunWire(long k, const Scr & s, bool countStats)
@@ -652,7 +705,9 @@ static void RunWire(long k, const Scr & s, bool countStats)
    const char * nopy = in.nonUtf8 ? "non_utf8_string" : in.nanPtRc ? "nan_in_point_or_rect" : (in.nonAsciiName && maskNames) ? "non_ascii_field_name_masked" : "";
    {
       std::string line; line.reserve(curJson.size() + bc.size() * 2 + 96);
-      line += vh::fmt("{\"case\":%ld,\"nopy\":\"%s\",\"script\":", k, nopy); line += curJson; line += ",\"cpp\":"; JHex(bc, line); line += "}\n";
+      line += vh::fmt("{\"case\":%ld,\"nopy\":\"%s\",\"script\":", k, nopy); line += curJson;
+      if (!*nopy && R(2)) { int kind; const Scr pv = MakePrev(s, kind); Info pin; Walk(pv, pin, 0); if (!pin.nonUtf8 && !pin.nanPtRc && !(pin.nonAsciiName && maskNames)) { line += ",\"prev\":"; Json(pv, line); if (countStats) { vh::stat("py_parse_into_used_target_requested"); if (s.f.empty()) vh::stat("py_parse_fieldless_into_used_target_requested"); } } }
+      line += ",\"cpp\":"; JHex(bc, line); line += "}\n";
       EnsureWirePeer(); wirePeer.Send(line);
       if (emitFile) { fputs(line.c_str(), emitFile); fflush(emitFile); }
    }
@@ -660,10 +715,10 @@ static void RunWire(long k, const Scr & s, bool countStats)
 
    // ---- C++ reads its own bytes back (content through the getters, same bytes again)
    {
-      Message back; status_t r = back.UnflattenFromBytes((const uint8 *)bc.data(), (uint32)bc.size());
-      if (r.IsError()) Fail("cpp|rejects-own-bytes", std::string("Message::Unflatten: ") + r());
-      else if (!CheckCpp(back, s, why)) Fail("cpp|parse-of-own-bytes-content", why);
-      else { std::string b2 = FlatCpp(back); if (b2 != bc) Fail("cpp|reflatten-of-own-bytes", DiffText("c++", bc, "c++ again", b2)); else if (in.nanItems == 0 && !in.nanPtRc && !(back == *cm())) Fail("cpp|parsed-message-not-equal", "operator== says the parsed Message differs from the built one"); }
+      MessageRef tr = CppTarget(s, countStats); Message & back = *tr(); status_t r = back.UnflattenFromBytes((const uint8 *)bc.data(), (uint32)bc.size());
+      if (r.IsError()) Fail(UK("cpp|rejects-own-bytes"), std::string("Message::Unflatten: ") + r() + tgtDesc);
+      else if (!CheckCpp(back, s, why)) Fail(UK("cpp|parse-of-own-bytes-content"), why + tgtDesc);
+      else { std::string b2 = FlatCpp(back); if (b2 != bc) Fail(UK("cpp|reflatten-of-own-bytes"), DiffText("c++", bc, "c++ again", b2) + tgtDesc); else if (in.nanItems == 0 && !in.nanPtRc && !(back == *cm())) Fail(UK("cpp|parsed-message-not-equal"), "operator== says the parsed Message differs from the built one" + tgtDesc); }
       if (!CheckCpp(*cm(), s, why)) Fail("cpp|route-built-message-content", "the C++ Message built through the routes [" + routeLog + "] does not hold the script's content (getters): " + why);
    }
 
@@ -673,15 +728,15 @@ static void RunWire(long k, const Scr & s, bool countStats)
       if (!CheckMM(mm, s, why)) HarnessAbort("the natively built MMessage does not hold the script: " + why);
       const std::string bm = FlatMM(mm);
       if (bm != bc) Fail("bytes|mini-vs-cpp", DiffText("c++", bc, "mini", bm));
-      MMessage * m2 = MMAllocMessage(0); MCK(m2, "MMAllocMessage");
-      if (MMUnflattenMessage(m2, bc.data(), (uint32)bc.size()) != CB_NO_ERROR) Fail("parse|mini-rejects-cpp-bytes", "MMUnflattenMessage returns an error");
-      else if (!CheckMM(m2, s, why)) Fail("parse|mini-of-cpp-bytes-content", why);
-      else { if (!MMAreMessagesEqual(mm, m2) && in.nanItems == 0 && !in.nanPtRc) Fail("parse|mini-of-cpp-bytes-not-equal", "MMAreMessagesEqual(native, parsed) is false"); std::string b2 = FlatMM(m2); if (b2 != bc) Fail("reflatten|mini-of-cpp-bytes", DiffText("c++", bc, "mini", b2)); }
+      MMessage * m2 = MiniTarget(s, countStats);
+      if (MMUnflattenMessage(m2, bc.data(), (uint32)bc.size()) != CB_NO_ERROR) Fail(UK("parse|mini-rejects-cpp-bytes"), "MMUnflattenMessage returns an error" + tgtDesc);
+      else if (!CheckMM(m2, s, why)) Fail(UK("parse|mini-of-cpp-bytes-content"), why + tgtDesc);
+      else { if (!MMAreMessagesEqual(mm, m2) && in.nanItems == 0 && !in.nanPtRc) Fail(UK("parse|mini-of-cpp-bytes-not-equal"), "MMAreMessagesEqual(native, parsed) is false" + tgtDesc); std::string b2 = FlatMM(m2); if (b2 != bc) Fail(UK("reflatten|mini-of-cpp-bytes"), DiffText("c++", bc, "mini", b2) + tgtDesc); }
       MMFreeMessage(m2);
-      Message back; status_t r = back.UnflattenFromBytes((const uint8 *)bm.data(), (uint32)bm.size());
-      if (r.IsError()) Fail("parse|cpp-rejects-mini-bytes", std::string("Message::Unflatten: ") + r());
-      else if (!CheckCpp(back, s, why)) Fail("parse|cpp-of-mini-bytes-content", why);
-      else if (FlatCpp(back) != bm) Fail("reflatten|cpp-of-mini-bytes", DiffText("mini", bm, "c++", FlatCpp(back)));
+      MessageRef tr = CppTarget(s, countStats); Message & back = *tr(); status_t r = back.UnflattenFromBytes((const uint8 *)bm.data(), (uint32)bm.size());
+      if (r.IsError()) Fail(UK("parse|cpp-rejects-mini-bytes"), std::string("Message::Unflatten: ") + r() + tgtDesc);
+      else if (!CheckCpp(back, s, why)) Fail(UK("parse|cpp-of-mini-bytes-content"), why + tgtDesc);
+      else if (FlatCpp(back) != bm) Fail(UK("reflatten|cpp-of-mini-bytes"), DiffText("mini", bm, "c++", FlatCpp(back)) + tgtDesc);
       MMFreeMessage(mm);
       if (countStats) vh::stat("mini_built_parsed_reflattened");
    }
@@ -697,10 +752,10 @@ static void RunWire(long k, const Scr & s, bool countStats)
          const std::string bu((const char *)UMGetFlattenedBuffer(&um), UMGetFlattenedSize(&um));
          if (bu != bc) Fail("bytes|micro-vs-cpp", DiffText("c++", bc, "micro", bu));
          if (!CheckUM(&um, s, why)) Fail("parse|micro-of-own-bytes-content", why);
-         Message back; status_t r = back.UnflattenFromBytes((const uint8 *)bu.data(), (uint32)bu.size());
-         if (r.IsError()) Fail("parse|cpp-rejects-micro-bytes", std::string("Message::Unflatten: ") + r());
-         else if (!CheckCpp(back, s, why)) Fail("parse|cpp-of-micro-bytes-content", why);
-         else if (FlatCpp(back) != bu) Fail("reflatten|cpp-of-micro-bytes", DiffText("micro", bu, "c++", FlatCpp(back)));
+         MessageRef tr = CppTarget(s, countStats); Message & back = *tr(); status_t r = back.UnflattenFromBytes((const uint8 *)bu.data(), (uint32)bu.size());
+         if (r.IsError()) Fail(UK("parse|cpp-rejects-micro-bytes"), std::string("Message::Unflatten: ") + r() + tgtDesc);
+         else if (!CheckCpp(back, s, why)) Fail(UK("parse|cpp-of-micro-bytes-content"), why + tgtDesc);
+         else if (FlatCpp(back) != bu) Fail(UK("reflatten|cpp-of-micro-bytes"), DiffText("micro", bu, "c++", FlatCpp(back)) + tgtDesc);
       }
       for (size_t i = bc.size() + 128; i < umBuf.size(); i++) if (umBuf[i] != 0xA5) { Fail("bytes|micro-writes-beyond-buffer", "UMAdd* wrote past the buffer size it was given"); break; }
       UMessage ur;
@@ -1046,6 +1101,22 @@ static void Regress()
      if (!CheckCpp(*m(), s, why)) Fail("witness|wrapped-ring-field-content", why);
      else if (bc != bm) Fail("witness|wrapped-ring-field-bytes", DiffText("documented (mini codec, built from the script)", bm, "c++ after sliding-window construction", bc));
      vh::distinct(vh::fnvs(bc), true); vh::stat("wrapped_ring_fields_in_witness", wrappedSeen); }
+   vh::begin_case(6);   // bytes parsed INTO A USED OBJECT give the bytes' content, nothing of what the object held before (field-less and subset Messages)
+   { caseBad = false; g = vh::Rng(106); const std::string bare = FromHex("30304d50" "07000000" "00000000"), doc = FromHex(DOC_HEX); curJson = "(field-less / subset Message parsed into used targets)"; curCppHex = vh::hex(bare.data(), bare.size());
+     Scr none; none.what = 7; Scr onlyA; onlyA.what = 9; onlyA.f.push_back(DocScript().f[0]); MessageRef oa = BuildCpp(onlyA); const std::string onlyABytes = FlatCpp(*oa()); std::string why;
+     for (int variant = 0; variant < 4 && !caseBad; variant++) {
+        Message t; const char * how;
+        if (variant & 1) { how = "an earlier parse of the documented example"; if (t.UnflattenFromBytes((const uint8 *)doc.data(), (uint32)doc.size()).IsError()) HarnessAbort("documented example does not parse"); }
+        else { how = "AddInt32/AddString/AddMessage"; t.what = 1; CKR(t.AddInt32("a", 5), "AddInt32"); CKR(t.AddInt32("a", 6), "AddInt32"); CKR(t.AddString("s", "old"), "AddString"); CKR(t.AddMessage("m", GetMessageFromPool(3)), "AddMessage"); }
+        const bool fieldless = variant < 2; const std::string & in = fieldless ? bare : onlyABytes; const Scr & want = fieldless ? none : onlyA;
+        status_t r = t.UnflattenFromBytes((const uint8 *)in.data(), (uint32)in.size());
+        if (r.IsError()) Fail("witness|parse-into-used-target", vh::fmt("Unflatten of a %s Message into a Message filled by %s fails: %s", fieldless ? "field-less" : "one-field", how, r()));
+        else if (!CheckCpp(t, want, why) || t.FlattenedSize() != in.size() || FlatCpp(t) != in) Fail(fieldless ? "witness|fieldless-into-used-target" : "witness|subset-into-used-target", vh::fmt("after Unflatten of a %s Message into a Message filled by %s: %s; %u names, what %u, FlattenedSize %u (bytes parsed: %zu)", fieldless ? "field-less" : "one-field", how, why.c_str(), t.GetNumNames(), t.what, t.FlattenedSize(), in.size()));
+     }
+     { MMessage * mt = BuildMM(DocScript()); if (MMUnflattenMessage(mt, bare.data(), (uint32)bare.size()) != CB_NO_ERROR || !CheckMM(mt, none, why) || FlatMM(mt) != bare) Fail("witness|mini-fieldless-into-used-target", "MMUnflattenMessage of a field-less Message into a used MMessage: " + why); MMFreeMessage(mt); }
+     { std::string line = "{\"case\":6,\"nopy\":\"\",\"script\":"; Json(none, line); line += ",\"prev\":"; Json(DocScript(), line); line += ",\"cpp\":"; JHex(bare, line); line += "}\n"; EnsureWirePeer(); wirePeer.Send(line);
+       std::vector<std::string> v = SplitTabs(wirePeer.ReadLine()); if (v.size() != 6 || v[0] != "R") HarnessAbort("unexpected answer from the python peer"); if (v[2] != "-") Fail(v[2], v[3]); if (v[4].find("py_parse_fieldless_into_used_target=1") == std::string::npos) HarnessAbort("python peer did not parse into a used target"); }
+     vh::distinct(vh::fnvs(bare), true); vh::stat("used_target_witness_checked"); }
 }
 
 
